@@ -667,6 +667,34 @@ def g_probe(rng):
     return {"kind": "probe", "tmpl": t, "src": src, "events": events, "expect": expect}
 
 
+# --- probes: an ACTIVATED flow restarts when it finishes.  The restarted instance is started by the interpreter on behalf of
+#     the original `activate f(..)`: every parameter the caller omitted must again be its declared default, whatever the
+#     finished instance did with its own parameter; a supplied argument must again be the supplied value.
+
+def g_restart_probe(rng):
+    t = rng.choice(["list", "list", "nested", "dict", "dictl", "set"])
+    d = rng.choice(HIST_DEFAULTS[t])
+    how = rng.choice(["inplace", "inplace", "inplace", "reassign"])
+    supplied = rng.random() < 0.25
+    n_go = rng.choice([1, 2, 3])
+    if how == "inplace":
+        muts = [st for _ in range(rng.choice([1, 2])) for st in g_mut(rng, "b", t, ["n"])]
+        # (supplied + shrinking mutation would block the caller's hand-shake: keep the growing ones there)
+        if supplied:
+            muts = [m for m in muts if m["meth"] in ("append", "extend", "add") or (m["meth"] == "update" and t == "dictl")] or \
+                   [{"op": "mut", "var": "b", "path": [], "meth": {"list": "append", "nested": "append", "set": "add"}.get(t, "update"),
+                     "args": [lit(7)] if t in ("list", "nested", "set") else [{"d1": ["zz", lit(7)]}], "ret": None}]
+        body = [render_stmt(m) for m in muts]
+    else:
+        body = ["$b = [$b, 1]"]
+    src = (f"flow fa $n=0 $b={render_val(d)}\n  send E(b=$b, n=$n)\n" + "".join("  " + l + "\n" for l in body) + "  $n = $n + 1\n  match Go()\n\n"
+           "flow main\n  activate fa" + (f"(5, {render_val(d)})" if supplied else "") + "\n  match Never()\n")
+    n0 = 5 if supplied else 0
+    expect = [["E", {"b": copy.deepcopy(d), "n": n0}] for _ in range(n_go + 1)]
+    return {"kind": "probe", "tmpl": "restart-" + how + ("-supplied" if supplied else "-omitted") + ":" + t, "src": src,
+            "events": [{"type": "Go"}] * n_go, "expect": expect}
+
+
 # --- probes: return-value capture inside bodies that the `when` expansion duplicates (one copy per group of an
 #     or-group, the else body once per case).  Found by the C12 builder (fixed in /repo 0e3efac): `$x = match $r.Finished()`
 #     lost its assignment in every copy but the first.  Oracle: the returned value reaches the caller's variable.
@@ -772,6 +800,7 @@ def gen_cases(rng, tier):
     cases += [g_hist(rng, passed=rng.random() < 0.15) for _ in range(n_e2e)]
     cases += [g_probe(rng) for _ in range(n_probe)]
     cases += [g_when_probe(rng) for _ in range(2 * n_probe)]
+    cases += [g_restart_probe(rng) for _ in range(n_probe)]
     return cases
 
 
@@ -1326,7 +1355,7 @@ def oracle(case, obs):
     if "exc" in obs:
         return f"run_to_completion raised {obs['exc']}"
     if case.get("expect") is not None:
-        exp = [[n, {k: vj.enc(v) for k, v in a.items()}] for n, a in case["expect"]]
+        exp = [[n, {k: _cenc(v) for k, v in a.items()}] for n, a in case["expect"]]
         if obs["out"] != exp:
             return f"emitted events {obs['out']}, expected {exp}"
         return None
@@ -1348,12 +1377,33 @@ def signature(case, obs, msg):
         return "reserved-parameter-name"
     if case["kind"] == "probe" and case["tmpl"].startswith("inplace-"):
         return "inplace-mutation-of-passed-container"
+    if case["kind"] == "probe" and case["tmpl"].startswith("restart-inplace-omitted") and _restart_explained(case, obs):
+        return "default-not-reevaluated-on-activated-restart"
+    if case["kind"] == "probe" and case["tmpl"].startswith("restart-inplace-supplied") and _restart_explained(case, obs):
+        # the restart hands the finished instance's argument OBJECT (the caller's list) to the next instance: the
+        # passed-by-reference family
+        return "inplace-mutation-of-passed-container"
     if case["kind"] == "e2e" and case.get("mode") == "hist-passed" and _passes_container(case["prog"]):
         # a container *variable* is passed (or a returned value is mutated by the caller) and what was observed is exactly
         # what sharing the passed object — and nothing else — explains: defaults fresh, everything not passed private
         if oracle_e2e(case, obs, share=True) is None:
             return "inplace-mutation-of-passed-container"
     return None
+
+
+def _restart_explained(case, obs):
+    """the observation is exactly what "the restarted instance is handed the finished instance's parameter OBJECTS" predicts
+    (first instance correct — declared default / supplied value —, `$n` re-bound to its value every time, and each later
+    instance's `$b` equal to what its predecessor left behind)"""
+    out = obs.get("out", [])
+    exp = case["expect"]
+    if "exc" in obs or len(out) != len(exp) or not out:
+        return False
+    if out[0] != [exp[0][0], {k: _cenc(v) for k, v in exp[0][1].items()}]:
+        return False
+    if any(o[0] != "E" or o[1].get("n") != out[0][1].get("n") for o in out):
+        return False
+    return any(o[1].get("b") != out[0][1].get("b") for o in out[1:])
 
 
 def _passes_container(prog):
